@@ -141,7 +141,9 @@ pub fn parser(doc: &Doc) -> rust::Tokens {
     for unit in &doc.units {
         for name in unit.names() {
             if let Some(prefix) = prefixes.get(name) {
-                suffix_units.insert(prefix.variant.clone(), unit);
+                // NB: remember which spelling of the prefix doubles as the name
+                // of the unit, the other spellings of the prefix are not units.
+                suffix_units.insert(prefix.variant.clone(), (unit, name.clone()));
             }
         }
     }
@@ -208,8 +210,8 @@ pub fn parser(doc: &Doc) -> rust::Tokens {
                     )
                     $(for p in &doc.prefixes join($['\r']) =>
                         Combined::$(&p.variant) => {
-                            $(if let Some(u) = suffix_units.get(&p.variant) {
-                                if lexer.remainder().is_empty() {
+                            $(if let Some((u, name)) = suffix_units.get(&p.variant) {
+                                if lexer.remainder().is_empty() && lexer.slice() == $(quoted(name)) {
                                     $(if let Some(bias) = u.prefix_bias() => prefix += $bias;)
                                     return Some(("", prefix, $(u.display(unit, units))));
                                 }$['\n']
